@@ -107,24 +107,24 @@ CHECKS = {
 
 # additions made after the first version of each check (seeded rounds 2-4), appended to the level text
 ADD = {
- "C01": " Host names are also taken from a constants dictionary (every string literal of the client and public-suffix sources that can be a label or name - which includes every label of the generated suffix table - alone, below and above a registrable domain and with a letter glued on either side), and custom providers fail with each of their error variants.",
- "C02": " Extension interplay is a dimension (hmac-secret configurations of the authenticator, credProps/prf members in the request), also inside the sequences.",
- "C03": " Extension interplay (authenticator with hmac-secret, credProps / empty prf / prf on an incapable authenticator) and allow-list entries of unknown type are part of the action alphabet. Six origins (incl. an explicit non-default port and the Android origin).",
- "C04": " At CTAP2 level the whole product also runs on an authenticator with hmac-secret enabled, credentials carrying secrets and requests asking for a PRF evaluation. Requests also reach the authenticator in three wire presentations (encoded+decoded, default-valued options elided, empty options map dropped).",
- "C05": " RP IDs also in upper case and with a trailing dot; descriptors with five transports-hint shapes; stores that answer Ok(empty). Listed ids also in a value relation to a held id (strict prefix, one more byte, empty).",
- "C06": " A credential created by the library itself is additionally asserted (CTAP2 level and through the client with pre-hashed inputs) with every salt of a constants dictionary: each string literal of the library sources of the current working tree as SHA-256, zero-padded, and under the client's salt derivation.",
- "C07": " Silent assertions (up=false) with and without PRF, late-failing requests. Three request shapes run through the WebAuthn client (credProps, credProps+prf, prf) under the same fault plans and cancellation points.",
- "C08": " The same histories also on Arc<Mutex<MemoryStore>>; silent assertions.",
- "C09": " Quick tier covers salt lengths {0,16,32,33,64} and two-salt requests. Default inputs also from the constants dictionary (raw and pre-hashed).",
- "C10": " Every label of the list's vocabulary is crossed with every rule body (quick: the 64 most frequent labels). Findings carry the last three lookups of their worker thread and are replayed on a fresh thread alone and after that history; ordered five-name sequences per rule with labels shared across levels.",
+ "C01": " Host names are also taken from a constants dictionary (every string literal of the client and public-suffix sources that can be a label or name - which includes every label of the generated suffix table - alone, below and above a registrable domain and with a letter glued on either side), and custom providers fail with each of their error variants. Schemes include near misses of https (httpsx, https2, https+unix, xhttps, ...).",
+ "C02": " Extension interplay is a dimension (hmac-secret configurations of the authenticator, credProps/prf members in the request), also inside the sequences. Eight origins incl. effective RP ids of 33 and 64 bytes.",
+ "C03": " Extension interplay (authenticator with hmac-secret, credProps / empty prf / prf on an incapable authenticator) and allow-list entries of unknown type are part of the action alphabet. Six origins (incl. an explicit non-default port and the Android origin). Instance differential: the complete tree of histories over nine operations on one long-lived Authenticator against fresh Authenticators per operation, three store kinds.",
+ "C04": " At CTAP2 level the whole product also runs on an authenticator with hmac-secret enabled, credentials carrying secrets and requests asking for a PRF evaluation. Requests also reach the authenticator in three wire presentations (encoded+decoded, default-valued options elided, empty options map dropped). The store's listing order is also reversed while the user step is pending.",
+ "C05": " RP IDs also in upper case and with a trailing dot; descriptors with five transports-hint shapes; stores that answer Ok(empty). Listed ids also in a value relation to a held id (strict prefix, one more byte, empty). Lists of 64..129 entries.",
+ "C06": " A credential created by the library itself is additionally asserted (CTAP2 level and through the client with pre-hashed inputs) with every salt of a constants dictionary: each string literal of the library sources of the current working tree as SHA-256, zero-padded, and under the client's salt derivation. The public-key converter applied to every stored key is scanned as an output.",
+ "C07": " Silent assertions (up=false) with and without PRF, late-failing requests. Three request shapes run through the WebAuthn client (credProps, credProps+prf, prf) under the same fault plans and cancellation points. Requests on a credential whose stored counter is 2^32-1.",
+ "C08": " The same histories also on Arc<Mutex<MemoryStore>>; silent assertions. 504 ceremonies through Client::authenticate (at most one write-back, advance by at most one, success reports the stored value); instance differential.",
+ "C09": " Quick tier covers salt lengths {0,16,32,33,64} and two-salt requests. Default inputs also from the constants dictionary (raw and pre-hashed). Every input length 0..300.",
+ "C10": " Every label of the list's vocabulary is crossed with every rule body (quick: the 64 most frequent labels). Findings carry the last three lookups of their worker thread and are replayed on a fresh thread alone and after that history; ordered five-name sequences per rule with labels shared across levels. The other three IDNA label separators in place of a dot.",
  "C11": " The product additionally runs over hmac-secret configuration (4) x prf input (3) x counters: 1956 configurations. The store is handed over bare and inside each shipped lock wrapper.",
- "C13": " A further value variant has every nested optional structure and list present but empty, and every serialisation must be exactly one CBOR map spanning all bytes written. One variant repeats entries in every list.",
+ "C13": " A further value variant has every nested optional structure and list present but empty, and every serialisation must be exactly one CBOR map spanning all bytes written. One variant repeats entries in every list. Wide-key mutations: members moved to / repeated under keys of 2, 3, 5 bytes with the same low byte.",
  "C15": " Scaling families: 14 well-formed shapes whose collection grows to 256..16384 (65536) elements with keys differing only at the front / end / middle; 4x the elements may cost at most 9x the thread CPU time and no allocation out of proportion.",
- "C17": " Control byte {0x03,0x07,0x08} x further flag bits in every single run. Third store Arc<Mutex<Option<Passkey>>>; unknown handles are the registered handle plus / minus a byte, with one byte changed, and the empty handle.",
- "C18": " Present-but-empty allow/exclude lists; descriptor type {public-key, unknown}; sequence alphabet of six operations. Store failures with seven status values, compared as values (two values share byte 0x00).",
- "C19": " Non-resident registrations and list-less assertions are part of the scenarios. A store that loses one counter write-back: two assertions in sequence, alone and next to a registration.",
- "C12": " RP ids in six spellings (upper case, android facet, trailing dot).",
- "C14": " Emitted credentials for three user ids (default, empty, 64 bytes).",
+ "C17": " Control byte {0x03,0x07,0x08} x further flag bits in every single run. Third store Arc<Mutex<Option<Passkey>>>; unknown handles are the registered handle plus / minus a byte, with one byte changed, and the empty handle. Sequences run on one authenticator, complete history tree to depth 4 (5) before merging, third system = single-slot store; instance differential over U2F operations.",
+ "C18": " Present-but-empty allow/exclude lists; descriptor type {public-key, unknown}; sequence alphabet of six operations. Store failures with seven status values, compared as values (two values share byte 0x00). Instance differential incl. trait calls dropped while the user step is pending.",
+ "C19": " Non-resident registrations and list-less assertions are part of the scenarios. A store that loses one counter write-back: two assertions in sequence, alone and next to a registration. An ordinary assertion followed by two silent ones in one task.",
+ "C12": " RP ids in six spellings (upper case, android facet, trailing dot). Key shapes compressed EC2, OKP, EC2 with key id and unregistered parameter; RP ids of 33 and 64 bytes.",
+ "C14": " Emitted credentials for three user ids (default, empty, 64 bytes). Named undeclared members from a constants dictionary in every object, seven value shapes, and standing in for each declared member.",
  "C16": " Starvation family: a message held back between two of its packets while other channels send 0..300 (1100), 1024, 2048, 4096, 10000 packets of whole messages in three traffic shapes.",
 }
 
